@@ -21,10 +21,30 @@ RULE = ("random sequences of fill_path / fill_rect / stroke_path (dashes, hairli
 def gen_cases(rng, tier):
     n = 6000 if tier == "quick" else 120000
     base = rng.getrandbits(40)
-    return [("api_fuzz", [base + i, i % 8]) for i in range(n)]
+    cases = [("api_fuzz", [base + i, i % 8]) for i in range(n)]
+    # the draw tiler, bit-exact against Model/Tiler.v
+    for i in range(300 if tier == "quick" else 3000):
+        w = rng.choice([1, 100, 8190, 8191, 8192, 8193, 16381, 16382, 16383, 24573, 24574, 40000, rng.randint(1, 70000)])
+        h = rng.choice([1, 7, 8191, 8192, 16382, 16383, rng.randint(1, 70000)])
+        cases.append(("tiles", [w, h]))
+    return cases
 
 
 def oracle(suite, args, out):
+    if suite == "tiles" and not out.startswith(("PANIC", "CRASH", "HANG")):
+        o = ints(out)
+        if o == [-1]:
+            return None if (args[0] <= 8191 and args[1] <= 8191) else "no tiling for a %dx%d target" % (args[0], args[1])
+        w, h = args
+        area = 0
+        for k in range(0, len(o), 4):
+            x, y, tw, th = o[k:k + 4]
+            if not (1 <= tw <= 8191 and 1 <= th <= 8191 and 0 <= x and 0 <= y and x + tw <= w and y + th <= h):
+                return "tile (%d,%d,%d,%d) of a %dx%d target is empty, too large or outside" % (x, y, tw, th, w, h)
+            area += tw * th
+        if area != w * h:
+            return "the tiles of a %dx%d target cover %d pixels" % (w, h, area)
+        return None
     if out.startswith("PANIC"):
         return "the call sequence panicked: " + out[6:220]
     if out.startswith("CRASH"):
@@ -35,9 +55,11 @@ def oracle(suite, args, out):
 
 
 def relation(suite, args, mo, io):
-    return True
+    return True if suite == "api_fuzz" else mo == io
 
 
 def nontrivial_tag(suite, args, out):
     o = out.split()
+    if suite == "tiles":
+        return "tiled" if len(o) >= 8 else None
     return "family%d" % args[1] if len(o) == 1 and o[0].isdigit() and int(o[0]) > 0 else None
